@@ -29,23 +29,30 @@ prop('C09',
      design_ref='DESIGN.md §5 C09')
 
 prop('C06',
-     modules=['LarkVerif.LineCounter', 'LarkVerif.Props.C06'],
-     theorems=['Props.C06.token_stamp_exact', 'Props.C06.lexer_loop_exact', 'Props.C06.dynamic_stamp_exact', 'Props.C06.window_start_exact',
-               'LCProto.feed_exact', 'LCProto.advanceTo_exact', 'LCProto.resume_exact', 'LCProto.dynAt_eq_coord'],
+     modules=['LarkVerif.LineCounter', 'LarkVerif.Shape', 'LarkVerif.Positions', 'LarkVerif.Props.C06'],
+     theorems=['Props.C06.token_stamp_exact', 'Props.C06.lexer_loop_exact', 'Props.C06.dynamic_stamp_exact', 'Props.C06.window_start_exact', 'Props.C06.tree_meta_exact',
+               'LCProto.feed_exact', 'LCProto.advanceTo_exact', 'LCProto.resume_exact', 'LCProto.dynAt_eq_coord', 'PosProto.evalP_inv', 'PosProto.metas_exact'],
      fingerprints=['lark/lexer.py:LineCounter.feed', 'lark/lexer.py:LineCounter.advance_to', 'lark/lexer.py:LineCounter.from_text_slice', 'lark/lexer.py:BasicLexer.next_token',
-                   'lark/lexer.py:BasicLexer.__init__', 'lark/parsers/xearley.py:Parser._parse', 'lark/parse_tree_builder.py:PropagatePositions.__call__'],
+                   'lark/lexer.py:BasicLexer.__init__', 'lark/parsers/xearley.py:Parser._parse', 'lark/parse_tree_builder.py:PropagatePositions.__call__', 'lark/parse_tree_builder.py:PropagatePositions._pp_get_meta',
+                   'lark/parse_tree_builder.py:ChildFilter.__call__', 'lark/parse_tree_builder.py:ExpandSingleChild.__call__'],
      rule='(a) the real LineCounter under random feed(token, flag)/advance_to sequences vs the Lean feed/advanceTo; (b) random terminal sets drawn from a table of regex spellings '
           '(literals, classes, negated classes, \\W \\D \\s, ranges, octal/hex/unicode escapes, inline and trailing flags) x random texts with newlines x '
           '{lalr/basic, lalr/contextual, earley/basic, earley/dynamic, earley/dynamic_complete} x str/bytes: every token of every result (and of Lark.lex) must satisfy '
           'text[start:end]==token and carry the stamp the Lean model computes for its span (proved equal to the source coordinates); the hypothesis of the theorem '
-          '(terminals outside newline_types are newline-free strings) is evaluated on every generated lexer. Non-trivial = the text contains a newline; distinct by canonical hash.',
-     not_proved=['tree meta (propagate_positions) has no Lean theorem yet: every node\'s meta is compared with the first/last token of the yield of the derivation node it came from (identified through the Lean shape model, C03 stream with newline-bearing %ignore)'],
+          '(terminals outside newline_types are newline-free strings) is evaluated on every generated lexer; (c) tree meta: raw derivations extracted from every engine on feature-rich grammars '
+          '(C03 stream with newline-bearing %ignore, propagate_positions=True) are fed, with the real tokens\' offsets, to the Lean model of PropagatePositions (Positions.lean, on top of the shape model): '
+          'the meta of every Tree of the real result must equal the span of what its rule matched (property) and what the model computes (correspondence); the theorem\'s hypothesis cleanB '
+          '(= outside finding F19) is evaluated by the driver per derivation, and inside that region the real metas must be exactly the model\'s. Non-trivial = the text contains a newline; distinct by canonical hash.',
+     not_proved=['tree_meta_exact speaks of trees whose rule matched at least one token (the property\'s "non-empty" nodes); a tree that matched nothing may be handed the span of the ?rule that inlined it (model and code agree)',
+                 'line/column of a meta are the token\'s own line/column at that offset (token half of the property); the model works on offsets'],
      assumptions=['str.count / str.rindex behave as specified', 'a PatternStr without a newline cannot match one'],
      level_text='Theorems token_stamp_exact / lexer_loop_exact / dynamic_stamp_exact: for every text and tiling the stamps written by the (modelled) lexer loop are exactly the 1-based '
                 'source coordinates, provided terminals outside newline_types cannot match a newline. The model functions are run against the real LineCounter and against every token the real '
-                'lexers produce on random terminal sets and texts; the hypothesis is evaluated on the real lexer objects.',
-     level_note='Trusted: Lean kernel, standard axioms, harness. Modelled not verified: Python re (which text a terminal matches), str.count/rindex.',
-     technique='Lean 4 invariant proof over the lexer loop (LineCounter) + differential correspondence on real tokens',
+                'lexers produce on random terminal sets and texts; the hypothesis is evaluated on the real lexer objects. Theorem tree_meta_exact: for every derivation outside the decidable region of finding F19, '
+                'the callback chain ChildFilter/ExpandSingleChild/PropagatePositions gives every non-empty tree exactly the span of what its rule matched, and containers the span of the returning derivation; '
+                'the executable model is run against Tree.meta of every engine.',
+     level_note='Trusted: Lean kernel, standard axioms, harness (incl. the raw-derivation extraction). Modelled not verified: Python re (which text a terminal matches), str.count/rindex, attribute protocol of Meta (hasattr/getattr).',
+     technique='Lean 4 invariant proofs (LineCounter lexer loop; PropagatePositions over derivations) + differential correspondence on real tokens and Tree.meta',
      design_ref='DESIGN.md §5 C06')
 
 prop('C18',
